@@ -746,3 +746,151 @@ def _lookup_keys(table, keys):
     ("C18", "break", ["C18-R2"], N2P, "    if np.any(~pvmajor & pvminor):\n        raise ValueError(\"`minorset`", "    if (minor & major) != major and np.any(~pvmajor & pvminor):\n        raise ValueError(\"`minorset`", "mksetpv: DOF test skipped when the MAJOR mask lies inside the minor mask"),
     ("C18", "neutral", [], N2P, "    if np.any(~pvmajor & pvminor):\n        raise ValueError(\"`minorset`", "    if (minor | major) != major and np.any(~pvmajor & pvminor):\n        raise ValueError(\"`minorset`", "mksetpv: mask containment written with |"),
 ]
+
+
+# ---------------------------------------------------------------------------------------------------------------------------------------
+# pass 3: flags computed as boolean expressions, lambdas / functools.partial / generator helpers, table-driven selection, index and
+# enumerate loops, buffers filled column by column, import and local aliases of library functions; typestate-style "established by the
+# tests taken" obligations of expanddof / index2slice; the finite world of mask tests with constants and arithmetic
+_CLAMP_DOF = "    pvi[pvi == i.size] -= 1\n    pv = i[pvi]\n"
+_CLAMP_MAT = "    pvi[pvi == i.size] -= 1\n    pv2 = i[pvi]\n"
+_DIGITS = "    edof = np.array([[node, int(i)] for node, arg in dof for i in str(arg)])\n"
+_IDS = "        return np.array([[n, i] for n in dof.ravel() for i in rg])\n"
+_IDS_ARM = "    if dof.ndim < 2 or dof.shape[1] == 1:\n"
+_EMPTY_REQ = "    if dof.size == 0:\n        return np.zeros((0, 2), dtype=np.int64)\n"
+_EMPTY_PV = "    if pv.size == 0:\n        return slice(0)\n"
+_EVEN = "    if d0 != 0 and np.all(d == d0) and pv[0] >= 0 and pv[-1] >= 0:\n"
+
+RECIPES += [
+    # ---- neutral: what the evaluator reads
+    ("C18", "neutral", [], LOC, _EVEN, "    uniform = d0 != 0 and np.all(d == d0)\n    if uniform and pv[0] >= 0 and pv[-1] >= 0:\n",
+     "index2slice: the even-spacing test computed as a flag (a and b) and tested later"),
+    ("C18", "neutral", [], LOC, _EVEN, "    uniform = (d0 != 0) & np.all(d == d0)\n    nonneg = pv[0] >= 0 and pv[-1] >= 0\n    if uniform and nonneg:\n",
+     "index2slice: flags combined with & and with `and`"),
+    ("C18", "neutral", [], LOC, _EVEN, "    if d0 != 0 and not np.any(d - d0) and pv[0] >= 0 and pv[-1] >= 0:\n",
+     "index2slice: all differences equal written as not any(d - d0)"),
+    ("C18", "neutral", [], LOC, "        stop = pv[0] + 1\n        if stop == 0:\n            stop = None\n        return slice(pv[0], stop)\n",
+     "        stop = pv[0] + 1\n        return slice(pv[0], (stop, None)[int(stop == 0)])\n", "index2slice: stop selected from a pair by a truth value"),
+    ("C18", "neutral", [], LOC, "        stop = pv[-1] + d0\n        if stop < 0:\n            stop = None\n",
+     "        if (stop := pv[-1] + d0) < 0:\n            stop = None\n", "index2slice: walrus in the stop test"),
+    ("C18", "neutral", [], LOC, _EMPTY_PV, "    if not len(pv):\n        return slice(0, 0)\n", "index2slice: empty vector tested with not len()"),
+    ("C18", "neutral", [], N2P, _MKSETPV, '''    as_mask = lambda s: mkusetmask(s) if isinstance(s, str) else s
+    major, minor = as_mask(major), as_mask(minor)
+    uset_set = uset["nasset"].values
+    in_set = lambda mask: (uset_set & mask) != 0
+    pvmajor = in_set(major)
+    pvminor = in_set(minor)
+    if np.any(~pvmajor & pvminor):
+        raise ValueError("`minorset` is not completely containedin `majorset`")
+    return pvminor[pvmajor]
+''', "mksetpv: lambdas bound to locals"),
+    ("C18", "neutral", [], N2P, _MKSETPV, '''    masks = []
+    for spec in (major, minor):
+        masks.append(mkusetmask(spec) if isinstance(spec, str) else spec)
+    uset_set = uset["nasset"].values
+    pvmajor, pvminor = [(uset_set & mask) != 0 for mask in masks]
+    stray = pvminor & ~pvmajor
+    refused = bool(stray.any())
+    if refused:
+        raise ValueError("`minorset` is not completely containedin `majorset`")
+    return pvminor[np.flatnonzero(pvmajor)]
+''', "mksetpv: loop over the two arguments, refusal as a flag, selection by np.flatnonzero"),
+    ("C18", "neutral", [], N2P, _REFUSAL, "    if np.setdiff1d(np.flatnonzero(pvminor), np.flatnonzero(pvmajor)).size > 0:\n        raise ValueError(\"`minorset`",
+     "mksetpv: refusal written with positions: setdiff1d(flatnonzero(minor), flatnonzero(major))"),
+    ("C18", "neutral", [], N2P, _REFUSAL, "    if minor - (minor & major) and np.any(~pvmajor & pvminor):\n        raise ValueError(\"`minorset`",
+     "mksetpv: the correct mask shortcut written with arithmetic"),
+    ("C18", "neutral", [], N2P, _CLAMP_DOF, "    pvi = np.where(pvi == i.size, pvi - 1, pvi)\n    pv = i[pvi]\n", "mkdofpv: clamp as np.where(index == size, index - 1, index)"),
+    ("C18", "neutral", [], N2P, _CLAMP_DOF, "    pvi = np.where(pvi < len(i), pvi, len(i) - 1)\n    pv = i[pvi]\n", "mkdofpv: clamp as np.where(index < size, index, size - 1)"),
+    ("C18", "neutral", [], N2P, "    i = np.argsort(uset_set)\n    pvi = np.searchsorted(uset_set, _dof, sorter=i)\n",
+     "    search, order_of = np.searchsorted, np.argsort\n    i = order_of(uset_set)\n    pvi = search(uset_set, _dof, sorter=i)\n",
+     "mkdofpv: library functions bound to locals"),
+    ("C18", "neutral", [], N2P, "    i = np.argsort(uset_set)\n    pvi = np.searchsorted(uset_set, _dof, sorter=i)\n    # since searchsorted can return length as index:\n" + _CLAMP_DOF,
+     "    i = np.argsort(uset_set)\n    sorted_keys = np.asarray(uset_set)[i]\n    pvi = sorted_keys.searchsorted(_dof, side=\"left\")\n"
+     "    pvi[pvi == len(sorted_keys)] = len(sorted_keys) - 1\n    pv = i[pvi]\n", "mkdofpv: search in a sorted copy of the keys"),
+    ("C18", "neutral", [], N2P, "    _dof = dof[:, 0] * 10 + dof[:, 1]\n", "    ids, comps = dof.T\n    _dof = 10 * ids + comps\n", "mkdofpv: request columns unpacked from dof.T"),
+    ("C18", "neutral", [], LOC, _MAT_VIEWS, '''    import functools
+    as_rows = functools.partial(_bytes_view, dtype=out_dtype)
+    haystack = as_rows(haystack).ravel()
+    needles = as_rows(needles).ravel()
+''', "mat_intersect: functools.partial of the view helper"),
+    ("C18", "neutral", [], LOC, '''    if (keep == 0 and r1 <= r2) or keep == 1:
+        needles = D1
+        haystack = D2
+        switch = False
+    else:
+        needles = D2
+        haystack = D1
+        switch = True
+''', '''    search_d2 = (keep == 0 and r1 <= r2) or keep == 1
+    needles, haystack = ((D2, D1), (D1, D2))[bool(search_d2)]
+    switch = not search_d2
+''', "mat_intersect: roles selected from a pair of pairs by a truth value"),
+    ("C18", "neutral", [], N2P, _DIGITS, "    edof = np.array([[node, i] for node, arg in dof for i in map(int, str(arg))])\n", "expanddof: digits through map(int, str(arg))"),
+    ("C18", "neutral", [], N2P, _DIGITS, '''    rows = []
+    for k in range(len(dof)):
+        for ch in str(dof[k, 1]):
+            rows.append([dof[k, 0], int(ch)])
+    edof = np.array(rows)
+''', "expanddof: request walked by position (range(len(dof)))"),
+    ("C18", "neutral", [], N2P, _DIGITS, '''    rows = []
+    for _, (node, arg) in enumerate(dof):
+        rows += [[node, int(ch)] for ch in str(arg)]
+    edof = np.array(rows)
+''', "expanddof: enumerate and += of a comprehension"),
+    ("C18", "neutral", [], N2P, _DIGITS, '''
+    def _digit_rows():
+        for node, arg in dof:
+            for i in str(arg):
+                yield [node, int(i)]
+
+    edof = np.array(list(_digit_rows()))
+''', "expanddof: digit rows from a nested generator function"),
+    ("C18", "neutral", [], N2P, "        rg = range(1, 7) if grids_only else range(7)\n", "        rg = (range(7), range(1, 7))[bool(grids_only)]\n",
+     "expanddof: component range selected from a pair"),
+    ("C18", "neutral", [], N2P, "        rg = range(1, 7) if grids_only else range(7)\n" + _IDS, '''        rg = np.arange(1 if grids_only else 0, 7)
+        ids = dof.ravel()
+        edof = np.empty((ids.size * rg.size, 2), dtype=np.int64)
+        edof[:, 1] = np.tile(rg, ids.size)
+        edof[:, 0] = np.repeat(ids, rg.size)
+        return edof
+''', "expanddof: id expansion stored column by column into a buffer"),
+    ("C18", "neutral", [], N2P, _IDS, '''        pairs = []
+        for _, n in enumerate(dof.ravel()):
+            pairs.extend([n, i] for i in rg)
+        return np.array(pairs)
+''', "expanddof: id expansion with enumerate and extend(generator)"),
+    ("C18", "neutral", [], N2P, _IDS_ARM, "    if dof.ndim == 1 or dof.shape[-1] < 2:\n", "expanddof: `no component column` written as ndim == 1 or shape[-1] < 2"),
+    ("C18", "neutral", [], N2P, _EMPTY_REQ, "    if not dof.size:\n        return np.empty((0, 2), dtype=np.int64)\n", "expanddof: empty request tested with not size"),
+    # ---- break: siblings of the seeded changes and the new obligations
+    ("C18", "break", ["C18-R4"], N2P, _EMPTY_REQ, "    if dof.size != 0:\n        return np.zeros((0, 2), dtype=np.int64)\n", "expanddof: no rows for every non-empty request"),
+    ("C18", "break", ["C18-R4"], N2P, _EMPTY_REQ, "    if dof.size <= 1:\n        return np.zeros((0, 2), dtype=np.int64)\n", "expanddof: a single id answered with no rows (fast path for `small` requests)"),
+    ("C18", "break", ["C18-R4"], N2P, _IDS_ARM, "    if dof.ndim <= 2 or dof.shape[1] == 1:\n", "expanddof: two-column requests expanded as ids (ndim <= 2)"),
+    ("C18", "break", ["C18-R4"], N2P, _IDS_ARM, "    if dof.ndim < 2 or dof.shape[1] != 1:\n", "expanddof: two-column requests expanded as ids (shape[1] != 1)"),
+    ("C18", "break", ["C18-R4"], N2P, _IDS_ARM, "    if dof.ndim < 2 or dof.shape[1] <= 2:\n", "expanddof: two-column requests expanded as ids (shape[1] <= 2)"),
+    ("C18", "break", ["C18-R4"], N2P, _DIGITS, "    edof = np.array([[node, int(i)] for node, arg in dof for i in str(arg)[::-1]])\n", "expanddof: digit string reversed by a slice"),
+    ("C18", "break", ["C18-R4"], N2P, _DIGITS, "    edof = np.array([[node, int(i)] for node, arg in dof for i in dict.fromkeys(str(arg))])\n", "expanddof: repeated digits dropped (dict.fromkeys)"),
+    ("C18", "break", ["C18-R4"], N2P, _DIGITS, "    edof = np.array([[node, i] for node, arg in dof for i in map(int, sorted(str(arg)))])\n", "expanddof: digits sorted under a map()"),
+    ("C18", "break", ["C18-R4"], N2P, _DIGITS, "    edof = np.array([[node, int(i)] for node, arg in dof[::-1] for i in str(arg)])\n", "expanddof: request rows walked backwards"),
+    ("C18", "break", ["C18-R4"], N2P, "        rg = range(1, 7) if grids_only else range(7)\n" + _IDS, '''        rg = np.arange(1 if grids_only else 0, 7)
+        ids = dof.ravel()
+        edof = np.empty((ids.size * rg.size, 2), dtype=np.int64)
+        edof[:, 0] = np.tile(ids, rg.size)
+        edof[:, 1] = np.repeat(rg, ids.size)
+        return edof
+''', "expanddof: buffer filled component-major (tile of the ids, repeat of the components)"),
+    ("C18", "break", ["C18-R3"], N2P, _CLAMP_DOF, "    pvi = np.where(pvi == i.size, pvi, pvi - 1)\n    pv = i[pvi]\n", "mkdofpv: np.where clamp with the arms exchanged"),
+    ("C18", "break", ["C18-R3"], N2P, _CLAMP_DOF, "    pvi = np.where(pvi > i.size, pvi - 1, pvi)\n    pv = i[pvi]\n", "mkdofpv: np.where clamp on index > size (never true)"),
+    ("C18", "break", ["C18-R3"], LOC, _CLAMP_MAT, "    pvi = np.where(pvi < i.size, pvi, i.size)\n    pv2 = i[pvi]\n", "mat_intersect: np.where that leaves index == size in place"),
+    ("C18", "break", ["C18-R5"], LOC, _EMPTY_PV, "    if pv.size != 0:\n        return slice(0)\n", "index2slice: slice(0) for every non-empty vector"),
+    ("C18", "break", ["C18-R5"], LOC, _EMPTY_PV, "    if pv.size < 2 and not strict:\n        return slice(0)\n", "index2slice: slice(0) also for a single entry"),
+    ("C18", "break", ["C18-R5"], LOC, _EVEN, "    uniform = d0 != 0 or np.all(d == d0)\n    if uniform and pv[0] >= 0 and pv[-1] >= 0:\n",
+     "index2slice: flag computed with `or` (unevenly spaced entries become a slice)"),
+    ("C18", "break", ["C18-R2"], N2P, _REFUSAL, "    if minor != 4194304 and np.any(~pvmajor & pvminor):\n        raise ValueError(\"`minorset`",
+     "mksetpv: containment not tested for one particular minor mask (a constant the 4-bit world does not hold)"),
+    ("C18", "break", ["C18-R2"], N2P, _REFUSAL, "    if minor > major and np.any(~pvmajor & pvminor):\n        raise ValueError(\"`minorset`",
+     "mksetpv: containment tested only when minor > major as integers"),
+    ("C18", "break", ["C18-R2"], N2P, _REFUSAL, "    if minor + major != (minor | major) and np.any(~pvmajor & pvminor):\n        raise ValueError(\"`minorset`",
+     "mksetpv: containment tested only when the masks overlap (written with arithmetic)"),
+    ("C18", "break", ["C18-R2"], N2P, _REFUSAL, "    stray = ~pvmajor & pvminor\n    refused = stray.any() and stray.all()\n    if refused:\n        raise ValueError(\"`minorset`",
+     "mksetpv: refusal flag that needs every DOF to be outside"),
+]
